@@ -556,7 +556,7 @@ class Interp:
             else:
                 els = self._exact_elements(r.value)
                 new = base + tuple(els) if els is not None else TOP
-            if new != TOP and len(new) > 5:
+            if new != TOP and len(new) > getattr(self.domain, "list_widening", 5):
                 new = NONEMPTY  # widening: an unboundedly growing list is just "non-empty"
             out.append(val(NONE, r.state.set(key, new)))
         return out
